@@ -20,21 +20,22 @@ Record evrec := mkEv {
   ev_victim : positive; ev_action : Z; ev_preemptor : positive; ev_node : option positive;
   ev_pipnode : option positive;
   ev_jp_count : Z; ev_jp_min : Z;     (* the job's occupied count / minMember when JobPipelined was asked; -1: not asked *)
-  ev_order : list positive; ev_obs : list cobs }.
+  ev_order : list positive; ev_obs : list cobs;
+  ev_qorder : list positive }.        (* the candidates in the pop order of the plugins' victims queue *)
 
 Definition dObs : dec cobs :=
   let* i := dPos in let* s := dStatus in let* r := dZ in let* q := dRes in ret (mkObs i s r q).
 Definition dEvrec : dec evrec :=
   let* v := dPos in let* a := dZ in let* p := dPos in let* n := dNodeRef in let* pn := dNodeRef in
   let* jc := dZ in let* jm := dZ in
-  let* o := dList dPos in let* ob := dList dObs in ret (mkEv v a p n pn jc jm o ob).
+  let* o := dListS dPos in let* ob := dListS dObs in let* qo := dListS dPos in ret (mkEv v a p n pn jc jm o ob qo).
 
-Record law_in := mkLawIn { li_spec : spec; li_lims : list qlim_spec; li_evs : list evrec;
+Record law_in := mkLawIn { li_spec : spec; li_lims : list qlim_spec; li_clims : list clim_spec; li_evs : list evrec;
                            li_final : list (positive * status * option positive) }.
 Definition dLawIn : dec law_in :=
-  let* sp := dSpec in let* l := dList dQlim in let* evs := dList dEvrec in
-  let* fin := dList (let* i := dPos in let* s := dStatus in let* n := dNodeRef in ret (i, s, n)) in
-  ret (mkLawIn sp l evs fin).
+  let* sp := dSpec in let* l := dListS dQlim in let* cl := dListS dClim in let* evs := dListS dEvrec in
+  let* fin := dListS (let* i := dPos in let* s := dStatus in let* n := dNodeRef in ret (i, s, n)) in
+  ret (mkLawIn sp l cl evs fin).
 
 Section Laws.
 Variable L : law_in.
@@ -114,6 +115,33 @@ Fixpoint earlier_evicted (e : evrec) (q : positive) (v : positive) (obs : list c
 Definition lim_hi (q : positive) : option res :=
   match filter (fun l => bool_decide (ql_id l = q)) (li_lims L) with l :: _ => Some (ql_hi l) | [] => None end.
 
+(* capacity: the queue's guarantee from the Queue object, its deserved from the plugin's record *)
+Definition spec_guarantee (q : positive) : res :=
+  match filter (fun g => bool_decide (qg_id g = q)) (sp_qg sp) with
+  | g :: _ => mkRes (qg_gcpu g * grid) (qg_gmem g * grid) None
+  | [] => empty_res
+  end.
+Definition clim_of (q : positive) : option clim_spec :=
+  match filter (fun l => bool_decide (cl_id l = q)) (li_clims L) with l :: _ => Some l | [] => None end.
+
+(* evictions of the attempt from queue q that the victims queue popped before v *)
+Fixpoint popped_before (e : evrec) (q : positive) (v : positive) (order : list positive) : list task_spec :=
+  match order with
+  | [] => []
+  | i :: r =>
+    if bool_decide (i = v) then []
+    else match spec_task i with
+         | Some u => if bool_decide (i ∈ ev_order e) && bool_decide (queue_of_task u = Some q)
+                     then u :: popped_before e q v r else popped_before e q v r
+         | None => popped_before e q v r
+         end
+  end.
+Definition evicted_of_queue (e : evrec) (q : positive) : list task_spec :=
+  omap (fun i => match spec_task i with
+                 | Some u => if bool_decide (queue_of_task u = Some q) then Some u else None
+                 | None => None end) (ev_order e).
+Definition minus (a : res) (l : list task_spec) : res := fold_left (fun a u => sub a (req_of u)) l a.
+
 Definition cond (e : evrec) (v p : task_spec) (k : pkind) : bool :=
   match k with
   | KGang =>
@@ -136,11 +164,21 @@ Definition cond (e : evrec) (v p : task_spec) (k : pkind) : bool :=
       end
     | _, _ => false
     end
+  | KCap =>
+    match queue_of_task v, obs_of e (ts_id v), match queue_of_task v with Some q => clim_of q | None => None end with
+    | Some q, Some o, Some cl =>
+      (* keeps its guarantee: guarantee <= allocation observed at the vote - ALL evictions of the attempt from q *)
+      less_equal (sp_eps sp) (spec_guarantee q) (minus (o_qalloc o) (evicted_of_queue e q)) DZero &&
+      (* above deserved as the code defines it, when it was popped *)
+      (let a := minus (o_qalloc o) (popped_before e q (ts_id v) (ev_qorder e)) in
+       negb (intersects (sp_eps sp) false (req_of v) (cl_des cl)) || gp_rel (sp_eps sp) a (cl_des cl) (req_of v))
+    | _, _, _ => false
+    end
   end.
 
 (* does the plugin vote in this action *)
 Definition votes_in (action : Z) (pl : plug) : bool :=
-  if action =? 1 then p_pre pl && negb (bool_decide (p_kind pl = KProp))
+  if action =? 1 then p_pre pl && negb (bool_decide (p_kind pl = KProp)) && negb (bool_decide (p_kind pl = KCap))
   else p_rec pl && negb (bool_decide (p_kind pl = KPrio)).
 
 Definition tier_accepts (e : evrec) (v p : task_spec) (t : list plug) : bool :=
@@ -193,5 +231,23 @@ Definition refused_ok (i : positive) : bool :=
   | None => true
   end.
 Definition law_refused : bool := forallb refused_ok (sp_refuse sp).
+
+(* 107: after all evictions of the cycle every victim queue keeps its guarantee: the requests of its pods
+   that held resources before the cycle and were not evicted still cover the guarantee, per dimension.
+   (Evaluated for cycles that run reclaim only with the capacity plugin voting in a single-tier layout,
+   where every eviction went through its vote.) *)
+Definition held (t : task_spec) : bool :=
+  match ts_status t with Running | Bound | Binding | Allocated => true | _ => false end.
+Definition evicted_ids : list positive := map ev_victim (li_evs L).
+Definition queue_keeps_guarantee (q : queue_spec) : bool :=
+  let mine := filter (fun t => bool_decide (queue_of_task t = Some (qs_id q)) && held t) (sp_tasks sp) in
+  let lost := filter (fun t => bool_decide (ts_id t ∈ evicted_ids)) mine in
+  let rest := filter (fun t => negb (bool_decide (ts_id t ∈ evicted_ids))) mine in
+  match lost with
+  | [] => true
+  | _ => less_equal (sp_eps sp) (spec_guarantee (qs_id q))
+           (fold_left (fun a u => add a (req_of u)) rest empty_res) DZero
+  end.
+Definition law_guarantee : bool := forallb queue_keeps_guarantee (sp_queues sp).
 
 End Laws.
